@@ -264,11 +264,60 @@ func (j *judge) network() {
 				rep.Count("unspecified/ReadFrom-returned-count-differs-from-bytes-consumed", 1)
 			}
 			j.compareNet(dst, tag)
+			if target == "used" && cs.Extra == "" {
+				j.reencode(dst, tag)
+			}
 		}
 	}
 	if !cs.leanNet && cs.Secs == 1 && cs.Extra == "" {
 		j.usedSame(bufData, len(bufWire))
 	}
+}
+
+// reencode: the chunk a USED destination received is sent on (WriteTo, read by a fresh chunk) and saved (ChunkToSave,
+// ChunkFromSave). What the destination held before the read (wider palettes, longer data arrays) must not show in
+// either form: a receiver that compares block by block after the read sees nothing of storage left behind.
+func (j *judge) reencode(dst *level.Chunk, tag string) {
+	cs := j.cs
+	var buf bytes.Buffer
+	var err error
+	kind, frame, p := engine.Guard(func() { _, err = dst.WriteTo(&buf) })
+	atomic.AddInt64(&convExec, 1)
+	rep.Eval(1)
+	switch {
+	case p:
+		j.fail("net/re-encode/write/panic/"+kind+"@"+frame+"/"+tag, "Chunk.WriteTo of a chunk read into a used destination panicked: "+kind)
+	case err != nil:
+		j.fail("net/re-encode/write/error/"+tag, "Chunk.WriteTo of a chunk read into a used destination failed: "+err.Error())
+	default:
+		fresh := level.EmptyChunk(cs.Secs)
+		kind, frame, p = engine.Guard(func() { _, err = fresh.ReadFrom(bytes.NewReader(buf.Bytes())) })
+		atomic.AddInt64(&convExec, 1)
+		switch {
+		case p:
+			j.fail("net/re-encode/read/panic/"+kind+"@"+frame+"/"+tag, "reading the re-encoded chunk panicked: "+kind)
+		case err != nil:
+			j.fail("net/re-encode/read/error/"+tag, "a chunk read into a used destination and written again cannot be read: "+err.Error())
+		default:
+			j.compareNet(fresh, tag+",re-encoded")
+		}
+	}
+	sc := saveTemplate(-4)
+	kind, frame, p = engine.Guard(func() { err = level.ChunkToSave(dst, &sc) })
+	atomic.AddInt64(&convExec, 1)
+	if p || err != nil {
+		j.fail("net/re-encode/to-save/failed/"+tag, fmt.Sprintf("ChunkToSave of a chunk read into a used destination: panic=%v (%s) err=%v", p, kind, err))
+		return
+	}
+	var got *level.Chunk
+	kind, frame, p = engine.Guard(func() { got, err = level.ChunkFromSave(&sc) })
+	atomic.AddInt64(&convExec, 1)
+	rep.Eval(1)
+	if p || err != nil {
+		j.fail("net/re-encode/from-save/failed/"+tag, fmt.Sprintf("ChunkFromSave of the saved form of a chunk read into a used destination: panic=%v (%s in %s) err=%v", p, kind, frame, err))
+		return
+	}
+	j.compareSections(got, "net/re-encode/save", "/"+tag, always)
 }
 
 // usedSame reads the chunk into a destination that previously held a chunk of the SAME shape
